@@ -988,6 +988,10 @@ class _Simu(_IObserver, _params.Updatable, ABC):
             self.Need_Update()
         elif isinstance(observable, Mesh):
             self._Check_dim_mesh_material()
+            # the mesh moved: values memoised on the simulation from its geometry (e.g. the
+            # hyperelastic element mass) no longer hold. A notification is a user action, not a
+            # Newton iteration, so clearing here costs nothing in the solve loops.
+            clear_cached_computed_values(self)
             self.Need_Update()
         else:
             Terminal.MyPrintError("Notification not yet implemented")
